@@ -34,6 +34,7 @@ type specDef struct {
 	Params []specParam
 	Ret    string
 	Body   cExpr // nil = uninterpreted
+	Where  cExpr // definitional characterisation: assumed for every ground application (result = the application)
 	Src    string
 	Fuel   int
 	Macro  bool // always expanded in place (must not be recursive through macros)
@@ -392,6 +393,15 @@ func parseSpecDecl(s string) (*specDef, error) {
 		sd.Params = append(sd.Params, specParam{f[0], strings.TrimSpace(f[1])})
 	}
 	rest := strings.TrimSpace(s[close+1:])
+	if k := strings.Index(rest, " where "); k >= 0 {
+		sd.Ret = strings.TrimSpace(rest[:k])
+		e, err := parseCExpr(strings.TrimSpace(rest[k+7:]))
+		if err != nil {
+			return nil, err
+		}
+		sd.Where = e
+		return sd, nil
+	}
 	if k := indexOutsideString(rest, "="); k >= 0 && !strings.HasPrefix(rest[k:], "==") {
 		sd.Ret = strings.TrimSpace(rest[:k])
 		body := strings.TrimSpace(rest[k+1:])
